@@ -338,7 +338,8 @@ func c19Plant(r *rand.Rand, w *c19Journal, n int) c19Fault {
 	sort.Strings(names)
 	file := names[r.Intn(len(names))]
 	add := func(text string) {
-		w.files[file] = append(append([]byte{}, w.files[file]...), []byte("\n"+text+"\n")...)
+		// an empty line first: the file may end inside its last directive (no final newline)
+		w.files[file] = append(append([]byte{}, w.files[file]...), []byte("\n\n"+text+"\n")...)
 	}
 	mid := w.info.Dates[len(w.info.Dates)/2]
 	switch r.Intn(6) {
